@@ -414,9 +414,11 @@ class CachedFcn(UserFcn):
             )
         ):
             return self.lastReturn
+        # compute first: if the function raises, the cache must keep describing the previous successful call
+        result = super().__call__(*args, **kwds)
         self.lastArgs = args
         self.lastKwds = kwds
-        self.lastReturn = super().__call__(*args, **kwds)
+        self.lastReturn = result
         return self.lastReturn
 
     def __repr__(self):
